@@ -207,4 +207,203 @@ example :
     (encNumericU (.oper 0) 8 0 0 { vals := [[.int (-1)]] }).toOption.map (·.bits) = none := by
   decide
 
+/-! ### 5. element round trips (encode, then decode), in the state-transformer form of the walk -/
+
+/-- Numeric field.  If the encoder accepts the current value `v`, it has written exactly one field
+    `toBits n raw` (and used up exactly one value); `raw` is the all-ones pattern for a missing `v`, else
+    the quantised value minus the reference; and the decoder primitive, started on any state whose
+    stream begins with that field, consumes exactly the field and pushes
+    `numVal (canonUInt n raw) scale ref` = the quantised value `q/10^scale` (missing if `raw` is all
+    ones and `n > 1`; see `C03_canon_value`). By `C03_quantisation_bound` that is within half a unit
+    of the last scaled digit of `v`, and equal to `v` if `v` came from a decoder (`C03_grid_exact`). -/
+theorem C03_element_roundtrip_numeric (dd : DDesc) (nbits scale ref : Int) (se se' : St)
+    (h : encNumericU dd nbits scale ref se = .ok se') :
+    ∃ (v : Val) (n raw : Nat),
+      se.curVal = some v ∧ nbits = (n : Int) ∧ 0 < n ∧ raw < 2 ^ n ∧
+      se' = se.afterWrite dd (toBits n raw) ∧
+      (v = .missing → raw = 2 ^ n - 1 ∧ n ≤ 64) ∧
+      (v ≠ .missing → ∃ q, quantise v scale = .ok q ∧ q = (raw : Int) + ref) ∧
+      ∀ (sd : St) (suf : Bits), n ≤ 64 → sd.bits = toBits n raw ++ suf →
+        decNumericU dd nbits scale ref sd =
+          .ok (sd.afterRead dd suf (numVal (canonUInt n raw) scale ref)) := by
+  cases hv : se.curVal with
+  | none => rw [encNumericU_noval dd nbits scale ref se hv] at h; cases h
+  | some v =>
+    cases hn : natWidth nbits with
+    | error e =>
+      exfalso
+      unfold natWidth at hn
+      split at hn
+      · next hle => rw [encNumericU_badwidth dd nbits scale ref se v hv hle] at h; cases h
+      · cases hn
+    | ok n =>
+      obtain ⟨h0, rfl⟩ := natWidth_ok hn
+      rw [encNumericU_eq dd _ scale ref se v n hv hn] at h
+      cases hf : numericField v scale ref n with
+      | error e => rw [hf] at h; cases h
+      | ok f =>
+        rw [hf] at h
+        obtain ⟨raw, _, hr, rfl, hmiss, hval⟩ := numericField_inv hf
+        refine ⟨v, n, raw, rfl, rfl, h0, hr, ?_, hmiss, ?_, ?_⟩
+        · injection h with h; exact h.symm
+        · intro hne
+          obtain ⟨q, hq, hqr⟩ := hval hne
+          exact ⟨q, hq, by omega⟩
+        · intro sd suf h64 hb
+          exact (C03_element_fixpoint dd scale ref n raw h0 h64 hr).1 sd suf hb
+
+/-- Code / flag table field (also associated 204 and skipped 206 fields): the integer itself comes back,
+    all ones (width > 1) comes back as missing. -/
+theorem C03_element_roundtrip_codeflag (dd : DDesc) (n : Nat) (se se' : St)
+    (h : encCodeflagU dd n se = .ok se') :
+    ∃ (v : Val) (raw : Nat),
+      se.curVal = some v ∧ 0 < n ∧ raw < 2 ^ n ∧
+      se' = se.afterWrite dd (toBits n raw) ∧
+      ((v = .missing ∧ raw = 2 ^ n - 1 ∧ n ≤ 64) ∨ v = .int raw) ∧
+      ∀ (sd : St) (suf : Bits), n ≤ 64 → sd.bits = toBits n raw ++ suf →
+        decCodeflagU dd n sd = .ok (sd.afterRead dd suf (uintVal (canonUInt n raw))) := by
+  cases hv : se.curVal with
+  | none => rw [encCodeflagU_noval dd n se hv] at h; cases h
+  | some v =>
+    rw [encCodeflagU_eq dd n se v hv] at h
+    cases hf : codeflagField v n with
+    | error e => rw [hf] at h; cases h
+    | ok f =>
+      rw [hf] at h
+      obtain ⟨raw, h0, hr, rfl, hcase⟩ := codeflagField_inv hf
+      refine ⟨v, raw, rfl, h0, hr, ?_, hcase, ?_⟩
+      · injection h with h; exact h.symm
+      · intro sd suf h64 hb
+        have hd := decCodeflagU_field dd sd (toBits n raw) suf
+          (by rw [toBits_length]; exact h0) (by rw [toBits_length]; exact h64) hb
+        rw [toBits_length] at hd
+        simp only [toBits_all_iff n raw hr, ofBits_toBits, Nat.mod_eq_of_lt hr] at hd
+        exact hd
+
+/-- Character field of `k` bytes (Table B `CCITT IA5`, 205YYY, 208YYY-resized): a string is written
+    space-padded or truncated to `k` bytes and reads back as those `k` bytes; a missing string is
+    written as `k` bytes 0xFF and reads back as those bytes (strings never decode to `.missing`:
+    the renderer, not the decoder, interprets all-ones strings). -/
+theorem C03_element_roundtrip_string (dd : DDesc) (k : Nat) (se se' : St)
+    (h : encStringU dd k se = .ok se') :
+    ∃ (v : Val) (b : List UInt8),
+      se.curVal = some v ∧ b.length = k ∧
+      ((v = .missing ∧ b = List.replicate k 0xFF) ∨ (∃ b0, v = .bytes b0 ∧ b = padBytes b0 k)) ∧
+      se' = se.afterWrite dd (bytesToBits b) ∧
+      ∀ (sd : St) (suf : Bits), sd.bits = bytesToBits b ++ suf →
+        decStringU dd k sd = .ok (sd.afterRead dd suf (.bytes b)) := by
+  cases hv : se.curVal with
+  | none => rw [encStringU_noval dd k se hv] at h; cases h
+  | some v =>
+    rw [encStringU_eq dd k se v hv] at h
+    have key : ∀ b : List UInt8, b.length = k → ∀ (sd : St) (suf : Bits),
+        sd.bits = bytesToBits b ++ suf → decStringU dd k sd = .ok (sd.afterRead dd suf (.bytes b)) := by
+      intro b hl sd suf hb
+      subst hl
+      exact decStringU_field dd sd b suf hb
+    cases v with
+    | missing =>
+      simp only [stringField, Except.map] at h
+      injection h with h
+      exact ⟨.missing, List.replicate k 0xFF, rfl, by simp, .inl ⟨rfl, rfl⟩, h.symm, key _ (by simp)⟩
+    | bytes b0 =>
+      simp only [stringField, Except.map] at h
+      injection h with h
+      exact ⟨.bytes b0, padBytes b0 k, rfl, padBytes_length b0 k, .inr ⟨b0, rfl, rfl⟩, h.symm,
+        key _ (padBytes_length b0 k)⟩
+    | int i => cases h
+    | num m k' => cases h
+
+/-- New reference value (203YYY in definition mode): sign bit and magnitude on `n − 1` bits; the value
+    comes back exactly (the encoder never writes "minus zero") and both sides record it for the
+    element. -/
+theorem C03_element_roundtrip_newrefval (e : Elem) (n : Nat) (se se' : St)
+    (h : encNewRefvalU e n se = .ok se') :
+    ∃ i : Int,
+      se.curVal = some (.int i) ∧ 1 < n ∧ i.natAbs < 2 ^ (n - 1) ∧
+      se' = (setNewRefval se e.id i).afterWrite (.plain e) (decide (i < 0) :: toBits (n - 1) i.natAbs) ∧
+      ∀ (sd : St) (suf : Bits), sd.bits = (decide (i < 0) :: toBits (n - 1) i.natAbs) ++ suf →
+        decNewRefvalU e n sd = .ok ((setNewRefval sd e.id i).afterRead (.plain e) suf (.int i)) := by
+  cases hv : se.curVal with
+  | none => rw [encNewRefvalU_noval e n se hv] at h; cases h
+  | some v =>
+    rw [encNewRefvalU_eq e n se v hv] at h
+    cases v with
+    | int i =>
+      simp only [] at h
+      cases hf : fieldInt i n with
+      | error e' => rw [hf] at h; cases h
+      | ok f =>
+        rw [hf] at h
+        obtain ⟨hn, hi, rfl⟩ := fieldInt_inv hf
+        refine ⟨i, rfl, hn, hi, ?_, ?_⟩
+        · injection h with h; exact h.symm
+        · intro sd suf hb
+          have hd := decNewRefvalU_field e n i.natAbs (decide (i < 0)) sd suf hn hi hb
+          have hs : (if decide (i < 0) = true then -((i.natAbs : Nat) : Int) else ((i.natAbs : Nat) : Int)) = i := by
+            by_cases hneg : i < 0 <;> simp [hneg] <;> omega
+          rw [hs] at hd
+          exact hd
+    | missing => cases h
+    | num m k => cases h
+    | bytes b => cases h
+
+/-- Fixpoint for new reference values, with its one exception spelled out: the field `sgn, m` decodes
+    to `±m`; re-encoding that integer reproduces the field unless it was "minus zero" (`sgn = 1, m = 0`),
+    which is re-encoded as plus zero.  (The second round trip is then stable.) -/
+theorem C03_newrefval_fixpoint (e : Elem) (n m : Nat) (sgn : Bool) (hn : 1 < n) (hm : m < 2 ^ (n - 1)) :
+    let i : Int := if sgn then -(m : Int) else (m : Int)
+    (∀ (sd : St) (suf : Bits), sd.bits = (sgn :: toBits (n - 1) m) ++ suf →
+      decNewRefvalU e n sd = .ok ((setNewRefval sd e.id i).afterRead (.plain e) suf (.int i))) ∧
+    (∀ se : St, se.curVal = some (.int i) →
+      encNewRefvalU e n se =
+        .ok ((setNewRefval se e.id i).afterWrite (.plain e) ((sgn && m != 0) :: toBits (n - 1) m))) := by
+  intro i
+  refine ⟨fun sd suf hb => decNewRefvalU_field e n m sgn sd suf hn hm hb, fun se hv => ?_⟩
+  rw [encNewRefvalU_eq e n se _ hv]
+  have hi : i.natAbs = m := by
+    show (if sgn then -(m : Int) else (m : Int)).natAbs = m
+    cases sgn <;> simp
+  have hd : decide (i < 0) = (sgn && m != 0) := by
+    show decide ((if sgn then -(m : Int) else (m : Int)) < 0) = _
+    cases sgn
+    · simp
+    · by_cases h0 : m = 0
+      · subst h0; simp
+      · have h1 : 0 < m := by omega
+        simp [h1, h0]
+  simp only []
+  rw [fieldInt_ok i n hn (by rw [hi]; exact hm), hi, hd]
+  rfl
+
+/-- non-vacuity + the minus-zero exception on 4 bits: `1000` decodes to 0, which is written as `0000` -/
+example :
+    (decNewRefvalU default 4 { bits := [true, false, false, false], vals := [[]] }).toOption.map (·.vals)
+      = some [[.int 0]] ∧
+    (encNewRefvalU default 4 { vals := [[.int 0]] }).toOption.map (·.bits.reverse)
+      = some [false, false, false, false] ∧
+    (encNewRefvalU default 4 { vals := [[.int (-5)]] }).toOption.map (·.bits.reverse)
+      = some [true, true, false, true] := by
+  decide
+
+/-- non-vacuity of the round trips: each encoder primitive accepts something -/
+example :
+    (encNumericU (.oper 0) 12 1 (-1000) { vals := [[.num 2345 2]] }).toOption.map (·.bits.reverse)
+      = some (toBits 12 1234) ∧
+    (encNumericU (.oper 0) 12 1 (-1000) { vals := [[.missing]] }).toOption.map (·.bits.reverse)
+      = some (ones 12) ∧
+    (encCodeflagU (.oper 0) 4 { vals := [[.int 9]] }).toOption.map (·.bits.reverse) = some (toBits 4 9) ∧
+    (encStringU (.oper 0) 3 { vals := [[.bytes [0x41]]] }).toOption.map (·.bits.reverse)
+      = some (bytesToBits [0x41, 0x20, 0x20]) ∧
+    (encStringU (.oper 0) 2 { vals := [[.missing]] }).toOption.map (·.bits.reverse) = some (ones 16) := by
+  decide
+
+/-- A missing value in a ONE-bit field is not representable: the encoder writes `1` (its "all ones"),
+    the decoder returns the number 1 (FM-94: only fields wider than one bit can be missing). The round
+    trip theorems above state this precisely through `canonUInt 1 1 = some 1`. -/
+example :
+    (encCodeflagU (.oper 0) 1 { vals := [[.missing]] }).toOption.map (·.bits) = some [true] ∧
+    (decCodeflagU (.oper 0) 1 { bits := [true], vals := [[]] }).toOption.map (·.vals) = some [[.int 1]] := by
+  decide
+
 end Bufr
